@@ -3,6 +3,7 @@ package main
 import (
 	"context"
 	"fmt"
+	"reflect"
 	"runtime/debug"
 
 	"github.com/junioryono/godi/v4"
@@ -225,6 +226,11 @@ func (h *H) recResult(res *OpResult, v any) {
 		res.IsNilRes = true
 		return
 	}
+	if rv := reflect.ValueOf(v); rv.Kind() == reflect.Pointer && rv.IsNil() {
+		res.Insts = append(res.Insts, -1) // typed nil
+		res.TypedNil = true
+		return
+	}
 	if in, ok := v.(inster); ok {
 		res.Insts = append(res.Insts, in.inst().ID)
 		return
@@ -252,6 +258,11 @@ func (h *H) doOp(t *simrt.Task, res *OpResult, hd *Handle, op Op) {
 		h.setErr(res, err)
 		if err == nil {
 			for _, v := range vs {
+				if rv := reflect.ValueOf(v); v == nil || (rv.Kind() == reflect.Pointer && rv.IsNil()) {
+					res.Insts = append(res.Insts, -1)
+					res.TypedNil = true
+					continue
+				}
 				if in, ok := v.(inster); ok {
 					res.Insts = append(res.Insts, in.inst().ID)
 				} else {
